@@ -459,15 +459,15 @@ for wic in (False, True):
             VIOLATED, DETAIL = True, f'exposure (inherited coords {wic}, debug {debug}): {len(VP.LOG)} model calls, groups {dt.groups}'; break
     if VIOLATED: break
 if not VIOLATED:
-    obs = Observation(parameters=[ParameterValues(key='pipeline.photon_collection.w.arguments.photon', values=[1.0, 2.0])], readout=Readout(times=[1.0]))
+    obs = Observation(parameters=[ParameterValues(key='pipeline.photon_collection.w.arguments.pixel_add', values=[1.0, 2.0])], readout=Readout(times=[1.0]))
     for bad in (dict(debug=True),):
         try:
             pyxel.run_mode(mode=obs, detector=VP.detector(), pipeline=pipe, **bad); VIOLATED, DETAIL = True, 'debug accepted for an observation'
         except NotImplementedError:
             pass
     VP.LOG.clear()
-    dt = pyxel.run_mode(mode=obs, detector=VP.detector(), pipeline=pipe, override_dct={'pipeline.photon_collection.w.arguments.pixel_add': 7.0})
-    if len(VP.LOG) != 2 or any(x['kwargs'].get('pixel_add') != 7.0 for x in VP.LOG):
+    dt = pyxel.run_mode(mode=obs, detector=VP.detector(), pipeline=pipe, override_dct={'pipeline.photon_collection.w.arguments.photon': 7.0})
+    if len(VP.LOG) != 2 or any(x['kwargs'].get('photon') != 7.0 for x in VP.LOG) or sorted(x['kwargs'].get('pixel_add') for x in VP.LOG) != [1.0, 2.0]:
         VIOLATED, DETAIL = True, f'observation with an override: calls {[(x["kwargs"]) for x in VP.LOG]}'
 """, "expect": "run_mode: given detector / pipeline / flags / overrides reach the run; the run's result comes back"}
 
